@@ -1,3 +1,6 @@
 package agent
 
-const c19Steps = 3
+const (
+	c19Steps   = 3
+	c07Classes = 6
+)
